@@ -288,8 +288,8 @@ class RepeatedMetaItemWrapper(
         raise KeyError(index)
 
     def _pop_value(self, i: int) -> Optional[MetaValue]:
+        value = super().__getitem__(i).value  # evaluated first: an expression such as 1 / 0 raises, and nothing is removed then
         item = super().pop(i)
-        value = item.value
         if isinstance(value, base.RawModel) and value.token_store:
             if prev := value.token_store.get_prev(value.first_token):
                 value.token_store.remove(item.first_token, prev)
